@@ -28,6 +28,15 @@ type Event struct {
 	Err  string
 }
 
+// ErrTimeout is what a Read returns when its deadline passes.
+var ErrTimeout error = timeoutError{}
+
+type timeoutError struct{}
+
+func (timeoutError) Error() string   { return "read scripted:0: i/o timeout" }
+func (timeoutError) Timeout() bool   { return true }
+func (timeoutError) Temporary() bool { return true }
+
 // ErrClosed has the text the reader of a net.Conn sees after a local Close.
 var ErrClosed = errors.New("use of closed network connection")
 
@@ -46,15 +55,17 @@ type Conn struct {
 	WriteErrAt      int // -1 never; else the n-th Write (0-based) returns WriteErr
 	WriteErr        error
 
-	mu      sync.Mutex
-	pos     int
-	cut     int
-	closed  chan struct{}
-	once    sync.Once
-	events  []Event
-	writes  int
-	ReadBuf int // len(b) seen in Read (the reader's buffer size), for evidence
-	failed  bool
+	mu           sync.Mutex
+	pos          int
+	cut          int
+	closed       chan struct{}
+	once         sync.Once
+	events       []Event
+	writes       int
+	ReadBuf      int // len(b) seen in Read (the reader's buffer size), for evidence
+	failed       bool
+	readDeadline bool // a read deadline is armed (virtual time: an idle connection reaches any finite deadline)
+	timedOut     bool
 }
 
 func NewConn(data []byte) *Conn {
@@ -103,6 +114,13 @@ func (c *Conn) Read(b []byte) (int, error) {
 			c.log(Event{Kind: "read-error", A: c.pos, B: c.pos, Err: c.FailErr.Error()})
 			c.mu.Unlock()
 			return 0, c.FailErr
+		}
+		if c.readDeadline && !c.timedOut {
+			// the peer stays quiet from here on, so an armed read deadline is reached (virtual time)
+			c.timedOut = true
+			c.log(Event{Kind: "read-timeout", A: c.pos, B: c.pos, Err: ErrTimeout.Error()})
+			c.mu.Unlock()
+			return 0, ErrTimeout
 		}
 		c.mu.Unlock()
 		// nothing more to deliver: block like an idle connection until it is closed locally
@@ -171,10 +189,15 @@ type addr struct{}
 func (addr) Network() string { return "scripted" }
 func (addr) String() string  { return "scripted:0" }
 
-func (c *Conn) LocalAddr() net.Addr                { return addr{} }
-func (c *Conn) RemoteAddr() net.Addr               { return addr{} }
-func (c *Conn) SetDeadline(t time.Time) error      { return nil }
-func (c *Conn) SetReadDeadline(t time.Time) error  { return nil }
+func (c *Conn) LocalAddr() net.Addr           { return addr{} }
+func (c *Conn) RemoteAddr() net.Addr          { return addr{} }
+func (c *Conn) SetDeadline(t time.Time) error { return c.SetReadDeadline(t) }
+func (c *Conn) SetReadDeadline(t time.Time) error {
+	c.mu.Lock()
+	c.readDeadline = !t.IsZero()
+	c.mu.Unlock()
+	return nil
+}
 func (c *Conn) SetWriteDeadline(t time.Time) error { return nil }
 
 // Goroutines summarises a full stack dump: for each goroutine other than the caller its state and the function
